@@ -185,6 +185,30 @@ def run_cfg(chk, facts, cfg):
                                 probs.append('statistic #%d of the result is %s, not the sum of the operands\' statistic #%d' % (i, T.show(r)[:100], i))
                 chk.ob(key, 'E3+E4 homomorphism', '%s of two %s states adds every statistic component-wise (field coverage)' % (label, name), not probs, '; '.join(probs[:3]), where,
                        sample={'type': name, 'merge': label, 'statistics': len(va)})
+                # every compensated register of the merged state recovers the rounding error of *its own* addition with the
+                # precondition of that recovery established for *its own* operands (C08 D3b, here at the level of the
+                # statistics states: an operand order settled on one register does not carry over to another)
+                from .C08 import recovery_problems
+                rprobs = []
+
+                def registers(v):
+                    if v[0] == 'adt' and v[1] == sm.kahan['path']:
+                        yield v
+                    elif v[0] == 'adt':
+                        for f_ in v[3]:
+                            for r_ in registers(f_):
+                                yield r_
+                for pth in oks:
+                    res = pth.ret if mode == 'value' else pth.effects.get('a')
+                    if res is None:
+                        continue
+                    for reg in registers(res):
+                        s2 = reg[3][sm.k_sum]
+                        cs = [x for j, x in enumerate(reg[3]) if j != sm.k_sum and j not in sm.k_aux]
+                        _recs, pr_ = recovery_problems(nf, s2, cs, pth.guard)
+                        rprobs.extend(pr_)
+                chk.ob(key + ':recovery', 'E8 error-algebra', '%s of two %s states: every register merge recovers its rounding error under the precondition |p| >= |q| established for its own operands' % (label, name),
+                       not rprobs, '; '.join(sorted(set(rprobs))[:2]), where)
             except (Unsupported, NotReal) as e:
                 chk.ob(key, 'E3+E4 homomorphism', label, None, 'undecided: %s' % e, where)
         # D3/D4 type-level facts
